@@ -104,12 +104,14 @@ type MasterLog struct {
 }
 
 type simMaster struct {
-	causeAt  int // index (in packets) of the packet that carries the stream-composed cause
-	h        *History
-	conn     *simConn
-	plan     StreamPlan
-	connPlan stopKind
-	log      MasterLog
+	setErrVariant int // set-error: 0 ERR packet, 1 OK with a wrong sequence id, 2 unreadable reply
+	openCk        int // checksum of the dump's opening artificial ROTATE: 0 as the start file, 1 as the newest file (the connect-time global setting), 2 the opposite of the start file
+	causeAt       int // index (in packets) of the packet that carries the stream-composed cause
+	h             *History
+	conn          *simConn
+	plan          StreamPlan
+	connPlan      stopKind
+	log           MasterLog
 
 	inbuf    []byte
 	phase    int // 0 awaiting handshake response, 1 command phase, 2 dumping
@@ -245,7 +247,15 @@ func (m *simMaster) onPacket(seq byte, body []byte) {
 				return
 			}
 			if m.connPlan == stopSetErr {
-				m.emit(errPacket(1193, "HY000", "Unknown system variable 'binlog_checksum'"), &rs)
+				switch m.setErrVariant {
+				case 1: // a complete OK reply with the wrong sequence id
+					rs += 1 + byte(m.setErrVariant)
+					m.emit(okPacket(), &rs)
+				case 2: // a reply that is neither OK nor ERR nor a well-formed result-set header
+					m.emit([]byte{0x05, 0x01, 0x02}, &rs)
+				default:
+					m.emit(errPacket(1193, "HY000", "Unknown system variable 'binlog_checksum'"), &rs)
+				}
 				return
 			}
 			m.emit(okPacket(), &rs)
@@ -335,6 +345,16 @@ func (m *simMaster) startDump(d *DumpReq, seq byte) {
 		ck := file.Checksum
 		if f > fi {
 			ck = h.Files[f-1].Checksum
+		} else {
+			// before the first format description the replica cannot know whether the
+			// artificial ROTATE carries a checksum: the dump thread goes by the
+			// connection's setting (the global one at connect time), not by the file's
+			switch m.openCk {
+			case 1:
+				ck = h.Files[len(h.Files)-1].Checksum
+			case 2:
+				ck = !file.Checksum
+			}
 		}
 		add(m.fakeRotate(file.Name, uint64(start), ck), nil, "fake-rotate")
 		fde := file.Head[0]
